@@ -73,6 +73,26 @@ type retrySc struct {
 	CtxKind     string      `json:"ctx_kind"` // cancel | deadline
 	Ctx0        bool        `json:"ctx_done_on_entry"`
 	Script      []attemptSc `json:"script"`
+	// Preset names one of the library's Default*RetryPolicyConfiguration constructors (its waits are overridden by WaitNs);
+	// Enabled / RetryMax / Delay are then filled in from it
+	Preset string `json:"preset,omitempty"`
+}
+
+var presets = []struct {
+	name string
+	mk   func() *retry.RetryPolicyConfiguration
+}{
+	{"no-retry", retry.DefaultNoRetryPolicyConfiguration}, {"basic", retry.DefaultBasicRetryPolicyConfiguration}, {"robust", retry.DefaultRobustRetryPolicyConfiguration},
+	{"exponential", retry.DefaultExponentialBackoffRetryPolicyConfiguration}, {"linear", retry.DefaultLinearBackoffRetryPolicyConfiguration},
+}
+
+func presetPolicy(name string) *retry.RetryPolicyConfiguration {
+	for _, p := range presets {
+		if p.name == name {
+			return p.mk()
+		}
+	}
+	return nil
 }
 
 type clientSc struct {
@@ -432,8 +452,11 @@ func randHeader(r *h.Run) string {
 }
 
 func waitSweeps(r *h.Run) {
-	emitBudget := r.N(1480, 8000)
-	emit := func() bool { return r.NCases() < emitBudget }
+	// per-section budgets of correspondence cases (every scenario is judged by the oracle, a selection reaches the model)
+	secStart, secBudget := r.NCases(), 0
+	section := func(quick, thorough int) { secStart, secBudget = r.NCases(), r.N(quick, thorough) }
+	emit := func() bool { return r.NCases()-secStart < secBudget }
+	section(240, 1500)
 	// 1. deterministic corners without response: every configuration x corner pair x corner attempt numbers
 	//    (all evaluated by the oracle; the model sees every configuration on a rotating selection)
 	i := 0
@@ -442,22 +465,24 @@ func waitSweeps(r *h.Run) {
 			for _, ra := range []bool{false, true} {
 				base := waitSc{Enabled: c.enabled, BackOff: c.backoff, Linear: c.linear, RADisabled: ra, Min: p[0], Max: p[1]}
 				i++
-				runMonotone(r, base, append([]int(nil), cornerNs...), ci < 3 && ((pi+ci)%5 == 0 || pi == 6) && !ra && emit())
+				runMonotone(r, base, append([]int(nil), cornerNs...), ci < 3 && (pi == 6 || pi == 3+ci) && !ra && emit())
 			}
 		}
 	}
 	// emit a diagonal of (policy, pair, n) so that every corner n and pair reaches the model
+	section(300, 1600)
 	for ci := 0; ci < 3; ci++ {
 		c := configs[ci]
 		for pi, p := range cornerPairs {
 			for ni, n := range cornerNs {
-				if (pi+ni+ci)%4 != 0 {
+				if (pi+ni+ci)%6 != 0 {
 					continue
 				}
 				runWait(r, waitSc{Enabled: c.enabled, BackOff: c.backoff, Linear: c.linear, RADisabled: (pi+ni)%3 == 0, Min: p[0], Max: p[1], N: n}, emit())
 			}
 		}
 	}
+	section(140, 400)
 	// the linear policy at the edge of what int64 can hold: n = MaxInt64/wait is the first attempt number whose product overflows
 	for _, wv := range []int64{int64(time.Hour), int64(time.Minute), int64(5 * time.Second), 4294967298, 4294967297, 4294967296, 1 << 33, quantifierMax, int64(7 * time.Hour)} {
 		edge := math.MaxInt64 / wv
@@ -472,6 +497,7 @@ func waitSweeps(r *h.Run) {
 		}
 	}
 	// 2. headers: the three policies x enabled/disabled x statuses x corner headers
+	section(620, 3000)
 	for ci := 0; ci < 3; ci++ {
 		c := configs[ci]
 		for _, ra := range []bool{false, true} {
@@ -493,6 +519,7 @@ func waitSweeps(r *h.Run) {
 		}
 	}
 	// disabled policy / inconsistent flags still select a policy and still look at the header
+	section(60, 60)
 	for ci := 3; ci < len(configs); ci++ {
 		c := configs[ci]
 		for hi, hd := range []string{"7", "9223372037", "Fri, 01 Jan 2100 00:00:00 GMT", "abc"} {
@@ -502,15 +529,17 @@ func waitSweeps(r *h.Run) {
 		}
 	}
 	// 3. beyond the quantifier: correspondence only
+	section(90, 200)
 	for ci := 0; ci < 3; ci++ {
 		c := configs[ci]
 		for _, p := range beyondPairs {
-			for _, n := range []int{0, 1, 2, 9, 10, 62, 63, 1023, 1024} {
-				runWait(r, waitSc{Enabled: c.enabled, BackOff: c.backoff, Linear: c.linear, RADisabled: n%2 == 0, Min: p[0], Max: p[1], N: n}, emit())
+			for ni, n := range []int{0, 1, 2, 9, 10, 62, 63, 1023, 1024} {
+				runWait(r, waitSc{Enabled: c.enabled, BackOff: c.backoff, Linear: c.linear, RADisabled: n%2 == 0, Min: p[0], Max: p[1], N: n}, (ni+ci)%2 == 0 && emit())
 			}
 		}
 	}
 	// 4. seeded random
+	section(260, 3000)
 	n := r.N(6000, 200000)
 	for k := 0; k < n; k++ {
 		c := configs[r.Rng.Intn(3)]
@@ -555,11 +584,11 @@ type sctx struct {
 	err  error
 }
 
-func newSctx() *sctx                               { return &sctx{done: make(chan struct{})} }
-func (c *sctx) Deadline() (time.Time, bool)        { return time.Time{}, false }
-func (c *sctx) Done() <-chan struct{}              { return c.done }
-func (c *sctx) Value(any) any                      { return nil }
-func (c *sctx) Err() error                         { c.mu.Lock(); defer c.mu.Unlock(); return c.err }
+func newSctx() *sctx                        { return &sctx{done: make(chan struct{})} }
+func (c *sctx) Deadline() (time.Time, bool) { return time.Time{}, false }
+func (c *sctx) Done() <-chan struct{}       { return c.done }
+func (c *sctx) Value(any) any               { return nil }
+func (c *sctx) Err() error                  { c.mu.Lock(); defer c.mu.Unlock(); return c.err }
 func (c *sctx) end(kind string) {
 	c.mu.Lock()
 	defer c.mu.Unlock()
@@ -582,7 +611,9 @@ type scriptErr struct {
 	retriable bool
 }
 
-func (e *scriptErr) Error() string { return fmt.Sprintf("harness: attempt %d failed (%s)", e.id, e.kind) }
+func (e *scriptErr) Error() string {
+	return fmt.Sprintf("harness: attempt %d failed (%s)", e.id, e.kind)
+}
 func (e *scriptErr) Unwrap() error {
 	switch e.kind {
 	case "canceled":
@@ -645,6 +676,10 @@ func execRetry(sc *retrySc) (o retryObs) {
 	}
 	pol := &retry.RetryPolicyConfiguration{Enabled: sc.Enabled, RetryMax: sc.RetryMax, RetryWaitMin: time.Duration(sc.WaitNs), RetryWaitMax: time.Duration(sc.WaitNs),
 		BackOffEnabled: sc.Delay != "fixed", LinearBackOffEnabled: sc.Delay == "linear"}
+	if pp := presetPolicy(sc.Preset); pp != nil {
+		pol = pp
+		pol.RetryWaitMin, pol.RetryWaitMax = time.Duration(sc.WaitNs), time.Duration(sc.WaitNs)
+	}
 	resCh := make(chan error, 1)
 	go func() {
 		if sc.API == "onerror" {
@@ -883,7 +918,7 @@ func genRetry(r *h.Run) retrySc {
 }
 
 func retryKey(sc *retrySc) string {
-	return fmt.Sprintf("r|%s|%v|%d|%s|%d|%v|%s|%v|%v", sc.API, sc.Enabled, sc.RetryMax, sc.Delay, sc.WaitNs, sc.RetryCtxErr, sc.CtxKind, sc.Ctx0, sc.Script)
+	return fmt.Sprintf("r|%s|%v|%d|%s|%d|%v|%s|%v|%v|%s", sc.API, sc.Enabled, sc.RetryMax, sc.Delay, sc.WaitNs, sc.RetryCtxErr, sc.CtxKind, sc.Ctx0, sc.Script, sc.Preset)
 }
 
 func runRetries(r *h.Run, scs []retrySc, emit bool) {
@@ -975,6 +1010,22 @@ func retrySweeps(r *h.Run) {
 		for _, c0 := range []bool{false, true} {
 			scs = append(scs, retrySc{API: "if", Enabled: false, RetryMax: 5, Delay: "fixed", CtxKind: "cancel", Ctx0: c0, Script: []attemptSc{a, {Out: "succ"}}})
 		}
+	}
+	// the library's preset policies (waits overridden), an operation that never succeeds
+	for i, ps := range presets {
+		pp := ps.mk()
+		d := "fixed"
+		if pp.BackOffEnabled {
+			d = "backoff"
+			if pp.LinearBackOffEnabled {
+				d = "linear"
+			}
+		}
+		var s []attemptSc
+		for k := 0; k < 12; k++ {
+			s = append(s, rt("plain"))
+		}
+		scs = append(scs, retrySc{API: []string{"if", "onerror"}[i%2], Preset: ps.name, Enabled: pp.Enabled, RetryMax: pp.RetryMax, Delay: d, CtxKind: "cancel", Script: s})
 	}
 	// fn's own context-like errors, context done on entry
 	scs = append(scs, retrySc{API: "if", Enabled: true, RetryMax: 3, Delay: "fixed", CtxKind: "cancel", Script: []attemptSc{rt("plain"), rt("canceled"), rt("deadline")}})
@@ -1182,5 +1233,6 @@ func main() {
 	waitSweeps(r)
 	r.Note("observation (not a violation of the property as written): RetryMax <= 0 with an enabled policy means 'retry for ever' in retry-go; never generated")
 	r.Note("the HTTP client's RetryMax counts RE-tries: at most RetryMax+1 requests are sent")
+	r.Note("observation by reading (not exercised): NewConfigurableRetryableClient* hand RetryMax to retryablehttp whatever Enabled says; DefaultNoRetryPolicyConfiguration has RetryMax 0")
 	r.Finish()
 }
